@@ -12,12 +12,11 @@
   fuel (fuel is `b.size`, enough for any loop that stops at the final NUL).  "Memory safe and
   terminating" is therefore exactly "the callback returns `.ok _`".
 
-  Two source variants are modelled, selected by `Variant`:
-    * the PINNED code (fixA = fixE = false), which has the defects F05a (look_init dereferences a
-      failed strchr) and F05e (next_attr does not test the first value byte for NUL and reads one
-      byte past the buffer when the value starts at the final NUL);
-    * the code with the minimal fixes suggested in the C06 report.
-  The harness probes which variant it was built from and tells the driver.
+  The model follows the CURRENT source (`fixed`).  The functions keep a `Variant` parameter only so that
+  the four defects of the formerly pinned source (F05a look_init dereferenced a failed strchr, F05b
+  backend_init wrote buffer[-1] for size 0, F05e next_attr did not test the first value byte for NUL,
+  F05f the userdata importer called close_content without get_content) stay provable as NEGATIVE lemmas
+  about `pinned`; the driver and every positive theorem use `fixed`.
 
   libc functions are modelled by their specification on NUL-terminated strings, reading byte by
   byte and stopping at the first byte that decides the result (strspn, strchr, strncmp, strcmp,
@@ -390,6 +389,20 @@ def backendInit (fixB : Bool) (src : Buf) (len : Int) : M (Option Buf) :=
     do let b ← wr b (n - 1) 0
        pure (some b)
 
+/-! ### hwloc__xml_import_userdata (topology-xml.c), the part that talks to the scanner after the attributes:
+    every branch of the current source calls get_content exactly once (also for length 0), gives up when it
+    returns -1, and only then calls close_content and close_tag. -/
+def userdataTail (b : Buf) (f : Frame) (len : Nat) : M (Int × Buf × Frame) := do
+  let (r, b, f) ← getContent b f len
+  if r.ret < 0 then pure (-1, b, f) else do
+  let (b, f) ← closeContent b f
+  closeTag b f
+
+/-- the formerly pinned source in the `length == 0`, callback-set, not-encoded branch: no get_content -/
+def userdataTailPinned0 (b : Buf) (f : Frame) : M (Int × Buf × Frame) := do
+  let (b, f) ← closeContent b f
+  closeTag b f
+
 /-! ### engine: frames addressed by index, the op language of the consumer -/
 
 inductive Op
@@ -517,6 +530,8 @@ def fillAll (cap : Nat) : Nat → List Toks → Option (List Nat × Nat)
     has `nbobjs*nbobjs` (32-bit wrapping product) elements -/
 def idxCap (nbobjs : Nat) : Nat := nbobjs % 2^32
 def valCap (nbobjs : Nat) : Nat := (idxCap nbobjs * idxCap nbobjs) % 2^32
+/-- the attribute gate of the current source: `!nbobjs` → error, `nbobjs > 0xffff` → error (added for F05j) -/
+def nbobjsAccepted (nbobjs : Nat) : Bool := idxCap nbobjs != 0 && idxCap nbobjs ≤ 0xffff
 
 /-! ### hwloc__xml_import_userdata: length arithmetic -/
 
